@@ -638,6 +638,10 @@ type groupState struct {
 	mode    string // "" (not a member), "any", "include"
 	blocked map[string]bool
 	include map[string]bool
+	// what the membership looked like when the group was last left as a whole ("" if it never was): a caller that
+	// subscribes again usually restores the filters it had
+	prevMode    string
+	prevBlocked bool // srcSelf was blocked then
 }
 
 func getsockoptInt(fd, level, opt int) int {
@@ -992,6 +996,20 @@ func TestC12_MembershipHistories(t *testing.T) {
 					op = "leaveSrcSelf"
 				}
 			}
+			// re-subscription: a group that was left as a whole is joined again in the mode it had, and the filter on the
+			// sender it had then is put back (anything the library remembers per group or per source across a Leave shows here)
+			if rapid.IntRange(0, 2).Draw(rt, "restore") != 0 {
+				switch {
+				case st.mode == "" && st.prevMode == "any":
+					op = "join"
+				case st.mode == "" && st.prevMode == "include":
+					op = "joinSrcSelf"
+				case st.mode == "any" && st.prevMode == "any" && st.prevBlocked && !st.blocked[srcSelf]:
+					op = "blockSelf"
+				case st.mode == "any" && st.blocked[srcSelf] && st.prevMode == "" && rapid.Bool().Draw(rt, "leaveBlocked"):
+					op = "leave"
+				}
+			}
 			// Linux allows a mode switch on an empty source list: IP_DROP_SOURCE_MEMBERSHIP on an any-source membership
 			// fails but leaves the membership in include mode with no sources. That is kernel behaviour, not the
 			// library's: LeaveSource is only generated for source-specific memberships.
@@ -1049,6 +1067,7 @@ func TestC12_MembershipHistories(t *testing.T) {
 			case "leave":
 				err = mp.Leave(multicast.IP(gs(g)))
 				if err == nil {
+					st.prevMode, st.prevBlocked = st.mode, st.blocked[srcSelf]
 					st.mode, st.blocked, st.include = "", map[string]bool{}, map[string]bool{}
 				}
 			case "leaveSrcSelf", "leaveSrcOther":
@@ -1071,6 +1090,9 @@ func TestC12_MembershipHistories(t *testing.T) {
 				err = mp.BlockSource(multicast.IP(gs(g)), multicast.SourceIP(src))
 				if err == nil {
 					st.blocked[src] = true
+					if src == srcSelf && st.prevBlocked {
+						st.prevMode, st.prevBlocked = "", false // restored: generation moves on
+					}
 				}
 			case "unblockSelf", "unblockOther":
 				src := srcSelf
